@@ -40,7 +40,9 @@ def run(tier):
           # rules restricted to a unit / a line: in scope they designate as before, out of scope they designate nothing,
           # alone or next to an unrestricted rule for the same callee
           + [dict(t0=[0, 1, 6], op=[0], t1=[-1, 0, 1], scope=sc, split=sp) for sc in (1, 2, 3, 4) for sp in (False, True)]
-          + [dict(t0=[0, 5], op=[2], t1=[-1, 1], scope=sc, split=True) for sc in (2, 4)],
+          + [dict(t0=[0, 5], op=[2], t1=[-1, 1], scope=sc, split=True) for sc in (2, 4)]
+          # operands at positions 3..5 (arguments 2..4): every keyword designates its own position there too
+          + [dict(t0=[t], op=[0], t1=[-1, 2, 3, 4], base=3) for t in (0, 2, 3, 4, 6, 7)],
           pct=300 if tier == "quick" else 1500, ppt=30,
           bounds={"operands": "positions 0..2 absent / clean / tainted", "targets": [str(t) for t in h.TARGETS],
                   "targets_per_rule": "1..2", "rule operation": "call_stmt / field_write / object_call (receiver at 0, arguments from 2)"})
